@@ -77,6 +77,43 @@ INFO={
 "C16-4":("*CLS clears context.mav","*CLS;*STB? in one message with MAV set"),
 "C16-5":("default IEEE4882::stb() derives MSS from ESE instead of SRE","a device that does not override stb() (plain 488.2 wiring), ESB set, ESE bit 5 != SRE bit 5"),
 "C16-6":("float fallback rejects value >= MAX (patch rebased onto the tree after fix d721bc8)","*ESE 255.0 / *SRE 2.55E2 (exactly the maximum in NR2/NR3 spelling)"),
+# ---- third wave ("deeply hidden and indirect")
+"C01-7":("mnemonic_match compares numeric suffixes by value in a u16 accumulator","header whose letters match a node and whose numeric suffix is >= 65536 (OUTP70000?): multiply overflow, debug profile"),
+"C01-8":("Amplitude: ends_with_ignore_ascii rewritten with rev().zip()","Amplitude<_> conversion of a suffix that is a proper tail of PK/PP/RMS (1 S, 250ms, 1 K): slice panic in both profiles"),
+"C01-9":("next_optional_token trusts the tokenizer after a separator (variant of C01-1/C01-4)","',*CLS' in second or later parameter position with a typed pull"),
+"C02-7":("in_common set in read_mnemonic, reset at ';' dropped","leading-colon unit directly after a common-command unit"),
+"C02-8":("numeric suffixes compared by value through lexical_core::parse::<u8>","suffix >= 256 aliases suffix-256 (CHAN384 = CHANnel128); CHANnel300 unreachable in short form"),
+"C02-9":("Branch![name => handler; ...] names the implicit default leaf after its parent","only trees built with that macro arm: CONF:CONF? invokes the branch handler instead of -113"),
+"C04-7":("in_data reset moved to the plain-mnemonic arm (common headers never reset it)","datum in an earlier unit, later COMMON-command unit with a leading comma (TST 1;*ESE ,5)"),
+"C04-8":("shared skip_while() helper returns the run length as u8","mnemonic / character datum / suffix of 256..268 characters accepted"),
+"C04-9":("Node::run strips trailing NUL bytes before lexing","definite block as very last element whose payload ends in 0x00, no terminator"),
+"C05-7":("merged list formatting helper keeps only the last element's result","list response data (Vec/ArrayVec) where a non-last element fails to format and the last one succeeds"),
+"C05-8":("next_optional_token uses Peekable::next_if with a predicate that also accepts Err items","a handler that tolerates a failing pull: the lexical error is consumed and the message succeeds"),
+"C05-9":("default leaf falls through to the default branch on -113 (variant of C05-6)","branch with default leaf and default branch, header stops there, leaf fails with -113"),
+"C06-7":("Node::run trims trailing ASCII white space from the message","block as very last element whose payload ends in a white-space byte / indefinite block loses its NL"),
+"C06-8":("skip_ws_to_separator rewritten with position(): trailing white space at end of input not consumed","last element not a plain number, followed by CR NL / blank before NL / trailing blank: -102 after the handler ran"),
+"C06-9":("next_optional_data: conversion failure of a present element mapped to 'absent'","optional typed parameter whose element has the wrong type: dropped silently, message succeeds"),
+"C10-7":("message_end is a no-op when the buffer already ends in NL (variant of C10-5)","last datum of the last query is a block ending in 0x0A"),
+"C10-8":("dispatch retry through the default branch after the default leaf returned -113","event-only default leaf + queryable default branch, query at a non-first position: ';;' in the response (the unmodified library rejects the message)"),
+"C10-9":("ResponseUnit::finish() resets the unit state","a handler calling finish() before its last data()"),
+"C11-7":("header() forgets an overflow (variant of C11-4)","compound response header at a capacity where only the first mnemonic does not fit"),
+"C11-8":("Auto conversion compares ONCE via to_ascii_uppercase() (allocates)","Auto parameter given character data other than ON/OFF"),
+"C11-9":("default message_start() clears the buffer; Vec inherits it, ArrayVec keeps its no-op","a response buffer reused uncleared for a second message: fixed and growable buffers disagree"),
+"C12-7":("'overflow already on record' check looks at every entry, ignores extended text","overflow, partial pop, refill, overflow again; or an application-raised -350 in an older slot"),
+"C12-8":("SYST:ERR? puts the popped item back (at the tail) when the response cannot be produced","failing SYST:ERR? response with more items queued"),
+"C12-9":("SYST:ERR:ALL? treats a queued 'No error' as end of queue (variant of C13-6)","code-0 item behind another item, read with ALL?"),
+"C13-7":("in_common reset moved (variant of C02-5)","*OPC;:SYST:ERR?"),
+"C13-8":("both shipped queues remove the front entry with swap_remove/swap_pop","library queue type with >= 3 unread items"),
+"C13-9":("Error::esr_mask (not ErrorCode::esr_mask) maps every custom error to bit 3","handler-raised custom error numbered in a non-device class"),
+"C14-7":("push_error takes the ESR mask from what ended up in the queue","bounded queue completely full, then a non-device-specific error: bit 3 instead of its class bit"),
+"C14-8":("ArrayVec formatter: ';' pushed with a -321 conversion (variant of C14-5)","earlier responses fill the fixed buffer exactly when the next unit starts"),
+"C14-9":("'#' arm reads the element first: its own error wins over the header error","overflowing non-decimal literal in header position: -222 instead of a command error"),
+"C15-7":("set_condition_bits early return (variant of C15-4)","multi-bit mask partly overlapping the condition"),
+"C15-8":("float fallback rejects value >= MAX","STAT:OPER:PTR 6.5535E4 / 65535.0"),
+"C15-9":("12-character limit: '>' became '>=' in read_mnemonic","the long form QUESTIONABLE (exactly 12 characters)"),
+"C16-7":("message_end hoisted after the hook (variant of C13-3)","fixed buffer failing exactly at the terminator of *STB? etc."),
+"C16-8":("ErrorCode::esr_mask maps every Custom to bit 3","device-defined event numbered in another class pushed through push_error"),
+"C16-9":("*CLS clears context.mav (variant of C16-4)","*CLS;*STB? with MAV set"),
 }
 results={}
 for f in glob.glob(f"{HERE}/seeded/results.*.tsv"):
